@@ -7,6 +7,9 @@ pub(crate) mod common;
 #[path = "/verif/harness/sequencer/chainsim/mod.rs"]
 pub(crate) mod chainsim;
 
+#[path = "/verif/harness/sequencer/mempoolsim/mod.rs"]
+pub(crate) mod mempoolsim;
+
 #[test]
 fn verif_main() {
     let Some(job) = common::read_job() else {
@@ -14,6 +17,7 @@ fn verif_main() {
     };
     match job.engine.as_str() {
         "chainsim" => common::engine_main::<chainsim::ChainSim>(&job),
+        "mempoolsim" => common::engine_main::<mempoolsim::MempoolSim>(&job),
         other => panic!("unknown engine {other}"),
     }
 }
